@@ -31,8 +31,14 @@ type c08Field struct {
 	Quantum           string
 	NoStd             bool
 	Min, Max          int64
+	CacheType         string
+	CacheSize         uint32
 	opts              []pilosa.FieldOption
 }
+
+// c08TopN collects, per field, TopN as answered right after a restart BEFORE any recalculation ([0]) and after
+// RecalculateCaches ([1]); filled by c08Battery when fresh is set.
+var c08TopN map[string][2]string
 
 type c08Case struct {
 	Fields []string `json:"fields"`
@@ -49,6 +55,7 @@ func c08GenField(rng *vk.Rand, index string, idxKeys bool, n int) c08Field {
 	case 0, 1:
 		ct, cs := cacheTypes[rng.Intn(3)], cacheSizes[rng.Intn(len(cacheSizes))]
 		f.Type, f.Desc = "set", fmt.Sprintf("set(%s,%d)", ct, cs)
+		f.CacheType, f.CacheSize = ct, cs
 		f.opts = []pilosa.FieldOption{pilosa.OptFieldTypeSet(ct, cs)}
 	case 2:
 		bounds := [][2]int64{{-100, 100}, {10, 1000}, {-1000, -10}, {5, 5}, {0, 1}, {-1, 0}, {-(1 << 40), 1 << 40}, {1, 1 << 20}, {-7, -7}, {0, 0}}
@@ -63,6 +70,7 @@ func c08GenField(rng *vk.Rand, index string, idxKeys bool, n int) c08Field {
 	case 4:
 		ct, cs := cacheTypes[rng.Intn(3)], cacheSizes[rng.Intn(len(cacheSizes))]
 		f.Type, f.Desc = "mutex", fmt.Sprintf("mutex(%s,%d)", ct, cs)
+		f.CacheType, f.CacheSize = ct, cs
 		f.opts = []pilosa.FieldOption{pilosa.OptFieldTypeMutex(ct, cs)}
 	case 5:
 		f.Type, f.Desc = "bool", "bool"
@@ -156,8 +164,42 @@ func c08Battery(m *test.Command, fields []c08Field, indexes map[string]bool, use
 			fmt.Fprintf(&sb, "Q %s %s -> columnattrs=%s\n", index, pq, cj)
 		}
 	}
+	// Right after a restart the row caches are what was saved at shutdown. For fields whose rows all fit the cache
+	// TopN must already be complete then, without anybody asking for a recalculation.
+	topnCanon := func(f c08Field) string {
+		resp, err := m.API.Query(ctx, &pilosa.QueryRequest{Index: f.Index, Query: fmt.Sprintf("TopN(%s, n=5)", f.Name)})
+		if err != nil {
+			return "error: " + err.Error()
+		}
+		ps, _ := resp.Results[0].([]pilosa.Pair)
+		var out []string
+		for _, pr := range ps {
+			out = append(out, fmt.Sprintf("%d%s:%d", pr.ID, pr.Key, pr.Count))
+		}
+		sort.Strings(out)
+		return strings.Join(out, " ")
+	}
+	roomy := func(f c08Field) bool {
+		return (f.Type == "set" || f.Type == "mutex") && f.CacheType != pilosa.CacheTypeNone && f.CacheSize >= 100 && indexes[f.Index] && m.Server.Holder().Field(f.Index, f.Name) != nil
+	}
+	if c08TopN != nil {
+		for _, f := range fields {
+			if roomy(f) {
+				c08TopN[f.Index+"/"+f.Name] = [2]string{topnCanon(f), ""}
+			}
+		}
+	}
 	if err := m.API.RecalculateCaches(ctx); err != nil {
 		return "", err
+	}
+	if c08TopN != nil {
+		for _, f := range fields {
+			if roomy(f) {
+				e := c08TopN[f.Index+"/"+f.Name]
+				e[1] = topnCanon(f)
+				c08TopN[f.Index+"/"+f.Name] = e
+			}
+		}
 	}
 	for _, f := range fields {
 		if !indexes[f.Index] {
@@ -465,10 +507,27 @@ func TestVerifC08(t *testing.T) {
 				fail(fmt.Sprintf("reopen-%d-fails", round), err.Error())
 				return
 			}
+			c08TopN = map[string][2]string{}
 			after, err := c08Battery(m, fields, indexes, nil)
+			fresh := c08TopN
+			c08TopN = nil
 			if err != nil {
 				fail("battery-error", err.Error())
 				return
+			}
+			for name, e := range fresh {
+				r.Eval(1)
+				r.Cover("topn:fresh-after-restart")
+				if e[0] != e[1] {
+					desc := ""
+					for _, f := range fields {
+						if f.Index+"/"+f.Name == name {
+							desc = f.Desc
+						}
+					}
+					fail("topn-after-restart-needs-recalculation:"+desc, fmt.Sprintf("restart %d: TopN(%s, n=5) right after the restart answers [%s]; after RecalculateCaches [%s] (all rows fit the cache)", round, name, e[0], e[1]))
+					return
+				}
 			}
 			bl, al := strings.Split(before, "\n"), strings.Split(after, "\n")
 			r.Eval(len(bl))
